@@ -9,89 +9,51 @@ namespace TapkeeVerif.QuadTree
 variable {K : Type} [Field K] [LinearOrder K] [IsStrictOrderedRing K]
 set_option linter.unusedSectionVars false
 
-/-- no two inserted points coincide -/
-def Distinct (data : Nat → K × K) (is : List Nat) : Prop := is.Pairwise fun a c => data a ≠ data c
+/-- no two accepted points coincide -/
+def Distinct (ps : List (K × K)) : Prop := ps.Pairwise fun p q => p ≠ q
 
-theorem Distinct.filter {data : Nat → K × K} {is : List Nat} (h : Distinct data is) (f : Nat → Bool) :
-    Distinct data (is.filter f) := List.Pairwise.filter f h
+theorem Distinct.filter {ps : List (K × K)} (h : Distinct ps) (f : K × K → Bool) :
+    Distinct (ps.filter f) := List.Pairwise.filter f h
 
-/-- in a list without coincident points a node has absorbed nothing -/
-theorem dups_nil (data : Nat → K × K) (r : Nat) (dups rest : List Nat)
-    (hd : Distinct data (r :: (dups ++ rest))) (hdups : ∀ d ∈ dups, data d = data r) : dups = [] := by
-  rcases dups with _ | ⟨d, ds⟩
-  · rfl
-  · exfalso
-    have := (List.pairwise_cons.1 hd).1 d (by simp)
-    exact this (hdups d (by simp)).symm
-
-/-- the exact form of the mass invariant: **each cell's `cum_size` is the number of input points routed into it, its
-    centre of mass their mean (`cum • com = Σ`), all of them lie in its closed box, and the four children's lists are
-    the geometric routes of the parent's list** -/
-def ExactMass (data : Nat → K × K) : Tree K → List Nat → Prop
-  | .leaf b cum com res, is =>
-    cum = is.length ∧ MassOK data cum com is ∧ (∀ i ∈ is, b.containsPoint (data i) = true) ∧ res = is.head?
-  | .node b cum com nw ne sw se, is =>
-    cum = is.length ∧ MassOK data cum com is ∧ (∀ i ∈ is, b.containsPoint (data i) = true) ∧
-    nw.cell = cellNW b ∧ ne.cell = cellNE b ∧ sw.cell = cellSW b ∧ se.cell = cellSE b ∧
-    ExactMass data nw (is.filter fun i => rNW b (data i)) ∧
-    ExactMass data ne (is.filter fun i => rNE b (data i)) ∧
-    ExactMass data sw (is.filter fun i => rSW b (data i)) ∧
-    ExactMass data se (is.filter fun i => rSE b (data i))
-
-theorem exactMass_of_distinct (data : Nat → K × K) : ∀ (t : Tree K) (is : List Nat), WF data t is →
-    Distinct data is → ExactMass data t is := by
-  intro t
-  induction t with
-  | leaf b cum com res =>
-    intro is hwf _
-    cases res with
-    | none =>
-      simp only [WF] at hwf
-      obtain ⟨rfl, rfl⟩ := hwf
-      simp [ExactMass, MassOK]
-    | some r =>
-      simp only [WF] at hwf
-      obtain ⟨dups, rfl, hcum, hmass, hall⟩ := hwf
-      exact ⟨hcum, hmass, fun i hi => (hall i hi).1, by simp⟩
-  | node b cum com nw ne sw se ih1 ih2 ih3 ih4 =>
-    intro is hwf hd
-    simp only [WF] at hwf
-    obtain ⟨r, dups, rest, rfl, hcum, hmass, hall, hdups, -, e1, e2, e3, e4, w1, w2, w3, w4⟩ := hwf
-    have hn := dups_nil data r dups rest hd hdups
-    subst hn
-    simp only [List.nil_append] at *
-    exact ⟨hcum, hmass, hall, e1, e2, e3, e4, ih1 _ w1 (hd.filter _), ih2 _ w2 (hd.filter _),
-      ih3 _ w3 (hd.filter _), ih4 _ w4 (hd.filter _)⟩
-
-theorem ExactMass.cum_eq {data : Nat → K × K} {t : Tree K} {is : List Nat} (h : ExactMass data t is) :
-    t.cum = is.length := by
-  cases t <;> exact h.1
+/-- in a list without coincident points, points that are all equal to `q` are at most one -/
+theorem single_of_distinct (ps : List (K × K)) (q : K × K) (hd : Distinct ps) (hne : ps ≠ [])
+    (hall : ∀ p ∈ ps, p = q) : ps = [q] := by
+  rcases ps with _ | ⟨p, rest⟩
+  · exact absurd rfl hne
+  · have hp := hall p (by simp)
+    subst hp
+    rcases rest with _ | ⟨p', rest'⟩
+    · rfl
+    · exfalso
+      have := (List.pairwise_cons.1 hd).1 p' (by simp)
+      exact this (hall p' (by simp)).symm
 
 /-- the four routes partition the points of the parent's closed cell -/
-theorem route_partition (b : Cell K) (data : Nat → K × K) : ∀ (is : List Nat),
-    (∀ i ∈ is, b.containsPoint (data i) = true) →
-    (is.filter fun i => rNW b (data i)).length + (is.filter fun i => rNE b (data i)).length +
-    (is.filter fun i => rSW b (data i)).length + (is.filter fun i => rSE b (data i)).length = is.length := by
-  intro is
-  induction is with
+theorem route_partition (b : Cell K) : ∀ (ps : List (K × K)),
+    (∀ p ∈ ps, b.containsPoint p = true) →
+    (ps.filter fun p => rNW b p).length + (ps.filter fun p => rNE b p).length +
+    (ps.filter fun p => rSW b p).length + (ps.filter fun p => rSE b p).length = ps.length := by
+  intro ps
+  induction ps with
   | nil => intro _; rfl
-  | cons i is ih =>
+  | cons p ps ih =>
     intro hall
-    have hi := hall i (by simp)
-    have ih' := ih fun j hj => hall j (by simp [hj])
-    have hc := children_cover b (data i) hi
+    have hi := hall p (by simp)
+    have ih' := ih fun q hq => hall q (by simp [hq])
+    have hc := children_cover b p hi
     simp only [List.filter_cons, rNW, rNE, rSW, rSE] at ih' ⊢
-    cases h1 : (cellNW b).containsPoint (data i) <;> cases h2 : (cellNE b).containsPoint (data i) <;>
-      cases h3 : (cellSW b).containsPoint (data i) <;> cases h4 : (cellSE b).containsPoint (data i) <;>
+    cases h1 : (cellNW b).containsPoint p <;> cases h2 : (cellNE b).containsPoint p <;>
+      cases h3 : (cellSW b).containsPoint p <;> cases h4 : (cellSE b).containsPoint p <;>
       simp_all <;> omega
 
 /-- children's masses add up to the parent's -/
 theorem children_mass_add (data : Nat → K × K) (b : Cell K) (cum : Nat) (com : K × K) (nw ne sw se : Tree K)
-    (is : List Nat) (h : ExactMass data (.node b cum com nw ne sw se) is) :
+    (ps : List (K × K)) (h : WF data (.node b cum com nw ne sw se) ps) :
     nw.cum + ne.cum + sw.cum + se.cum = cum := by
-  obtain ⟨hcum, -, hall, -, -, -, -, m1, m2, m3, m4⟩ := h
+  simp only [WF] at h
+  obtain ⟨hcum, -, hall, -, -, -, -, -, m1, m2, m3, m4⟩ := h
   rw [m1.cum_eq, m2.cum_eq, m3.cum_eq, m4.cum_eq, hcum]
-  exact route_partition b data is hall
+  exact route_partition b ps hall
 
 /-! ### forces -/
 
@@ -124,12 +86,12 @@ theorem useSummary_zero (b : Cell K) (D : K) : useSummary (0 : K) b D = false :=
 
 /-- `θ = 0`, no coincident points: `computeNonEdgeForces` adds exactly the all-pairs terms of the stored points,
     in tree order -/
-theorem forces_zero_foldl (data : Nat → K × K) (pi : Nat) : ∀ (t : Tree K) (is : List Nat), WF data t is →
-    Distinct data is → ∀ acc, forces data 0 pi t acc = (allIndices t).foldl (fstep data pi) acc := by
+theorem forces_zero_foldl (data : Nat → K × K) (pi : Nat) : ∀ (t : Tree K) (ps : List (K × K)), WF data t ps →
+    Distinct ps → ∀ acc, forces data 0 pi t acc = (allIndices t).foldl (fstep data pi) acc := by
   intro t
   induction t with
   | leaf b cum com res =>
-    intro is hwf hd acc
+    intro ps hwf hd acc
     cases res with
     | none =>
       simp only [WF] at hwf
@@ -137,11 +99,9 @@ theorem forces_zero_foldl (data : Nat → K × K) (pi : Nat) : ∀ (t : Tree K) 
       simp [forces, allIndices]
     | some r =>
       simp only [WF] at hwf
-      obtain ⟨dups, rfl, hcum, hmass, hall⟩ := hwf
-      have hn : dups = [] := by
-        have := dups_nil data r dups [] (by simpa using hd) (fun d hd' => (hall d (by simp [hd'])).2)
-        exact this
-      subst hn
+      obtain ⟨hne, hcum, hmass, hall⟩ := hwf
+      have hs := single_of_distinct ps (data r) hd hne fun p hp => (hall p hp).2
+      subst hs
       simp only [List.length_singleton] at hcum
       subst hcum
       obtain ⟨m1, m2⟩ := hmass
@@ -151,17 +111,31 @@ theorem forces_zero_foldl (data : Nat → K × K) (pi : Nat) : ∀ (t : Tree K) 
       · simp [hp]
       · simp [hp, m1, m2]
   | node b cum com nw ne sw se ih1 ih2 ih3 ih4 =>
-    intro is hwf hd acc
+    intro ps hwf hd acc
     simp only [WF] at hwf
-    obtain ⟨r, dups, rest, rfl, hcum, -, -, hdups, -, -, -, -, -, w1, w2, w3, w4⟩ := hwf
-    have hn := dups_nil data r dups rest hd hdups
-    subst hn
-    simp only [List.nil_append] at *
-    have hc : cum ≠ 0 := by rw [hcum]; simp
+    obtain ⟨hcum, -, -, ⟨p, hp, -⟩, -, -, -, -, w1, w2, w3, w4⟩ := hwf
+    have hc : cum ≠ 0 := by
+      rw [hcum]; exact fun h => by rw [List.length_eq_zero_iff] at h; simp [h] at hp
     simp only [forces, hc, if_false, useSummary_zero, Bool.false_eq_true, allIndices, List.foldl_append]
     rw [ih1 _ w1 (hd.filter _), ih2 _ w2 (hd.filter _), ih3 _ w3 (hd.filter _), ih4 _ w4 (hd.filter _)]
 
-theorem Distinct.ne_of_mem {data : Nat → K × K} : ∀ {is : List Nat}, Distinct data is →
+/-! ### from tree order to any order (index level) -/
+
+/-- the indices that pass the root's containment test, in insertion order -/
+def accepted (data : Nat → K × K) (root : Cell K) (is : List Nat) : List Nat :=
+  is.filter fun j => root.containsPoint (data j)
+
+theorem acceptedPts_eq (data : Nat → K × K) (root : Cell K) (is : List Nat) :
+    acceptedPts data root is = (accepted data root is).map data := by
+  simp [acceptedPts, accepted, List.filter_map, Function.comp_def]
+
+/-- no two of the indices carry the same coordinates -/
+def DistinctIdx (data : Nat → K × K) (is : List Nat) : Prop := is.Pairwise fun a c => data a ≠ data c
+
+theorem DistinctIdx.pts {data : Nat → K × K} {is : List Nat} (h : DistinctIdx data is) :
+    Distinct (is.map data) := List.pairwise_map.2 h
+
+theorem DistinctIdx.ne_of_mem {data : Nat → K × K} : ∀ {is : List Nat}, DistinctIdx data is →
     ∀ x ∈ is, ∀ y ∈ is, x ≠ y → data x ≠ data y := by
   intro is
   induction is with
@@ -176,27 +150,43 @@ theorem Distinct.ne_of_mem {data : Nat → K × K} : ∀ {is : List Nat}, Distin
     · exact fun e => hpw.1 x hx e.symm
     · exact ih hpw.2 x hx y hy hxy
 
+/-- a stored index is an accepted index -/
+theorem stored_accepted (data : Nat → K × K) (fuel : Nat) (root : Cell K) (is : List Nat) (t : Tree K)
+    (h : buildIn data fuel root is = some t) : ∀ j ∈ allIndices t, j ∈ accepted data root is := by
+  intro j hj
+  obtain ⟨hwf, -⟩ := buildIn_WF data fuel root is t h
+  have h1 := buildIn_stored_sub data fuel root is t h j hj
+  have h2 := stored_mem data t _ hwf j hj
+  exact List.mem_filter.2 ⟨h1, (List.mem_filter.1 h2).2⟩
+
 /-- without coincident points the stored indices are a permutation of the accepted ones -/
-theorem allIndices_perm (data : Nat → K × K) (t : Tree K) (is : List Nat) (hwf : WF data t is)
-    (hd : Distinct data is) : (allIndices t).Perm is := by
-  have nd : is.Nodup := hd.imp fun hne heq => hne (by rw [heq])
-  rw [List.perm_ext_iff_of_nodup (allIndices_nodup data t is hwf) nd]
+theorem allIndices_perm (data : Nat → K × K) (fuel : Nat) (root : Cell K) (is : List Nat) (t : Tree K)
+    (h : buildIn data fuel root is = some t) (hd : DistinctIdx data (accepted data root is)) :
+    (allIndices t).Perm (accepted data root is) := by
+  obtain ⟨hwf, -⟩ := buildIn_WF data fuel root is t h
+  have nd : (accepted data root is).Nodup := hd.imp fun hne heq => hne (by rw [heq])
+  rw [List.perm_ext_iff_of_nodup (allIndices_nodup data t _ hwf) nd]
   intro a
   constructor
-  · exact allIndices_sub data t is hwf a
+  · exact stored_accepted data fuel root is t h a
   · intro ha
-    obtain ⟨r, hr, hda, -⟩ := represented data t is hwf a ha
-    have hrin := allIndices_sub data t is hwf r hr
+    have hp : data a ∈ acceptedPts data root is := by
+      rw [acceptedPts_eq]; exact List.mem_map_of_mem ha
+    obtain ⟨r, hr, hda, -⟩ := represented data t _ hwf (data a) hp
+    have hrin := stored_accepted data fuel root is t h r hr
     by_cases hra : r = a
     · exact hra ▸ hr
     · exact absurd hda (hd.ne_of_mem r hrin a ha hra)
 
 /-- **θ = 0**: for a point list without coincident points the pair returned by `computeNonEdgeForces` is the exact
     all-pairs Student-t pair over the accepted indices -/
-theorem forces_zero_exact (data : Nat → K × K) (pi : Nat) (t : Tree K) (is : List Nat) (hwf : WF data t is)
-    (hd : Distinct data is) : forces data 0 pi t ((0, 0), 0) = exactForces data is pi := by
-  rw [forces_zero_foldl data pi t is hwf hd, ← exactForces_eq]
-  exact exactForces_perm data pi (allIndices_perm data t is hwf hd)
+theorem forces_zero_exact (data : Nat → K × K) (fuel : Nat) (root : Cell K) (is : List Nat) (t : Tree K)
+    (h : buildIn data fuel root is = some t) (hd : DistinctIdx data (accepted data root is)) (pi : Nat) :
+    forces data 0 pi t ((0, 0), 0) = exactForces data (accepted data root is) pi := by
+  obtain ⟨hwf, -⟩ := buildIn_WF data fuel root is t h
+  have hdp : Distinct (acceptedPts data root is) := by rw [acceptedPts_eq]; exact hd.pts
+  rw [forces_zero_foldl data pi t _ hwf hdp, ← exactForces_eq]
+  exact exactForces_perm data pi (allIndices_perm data fuel root is t h hd)
 
 /-! ### small θ -/
 
@@ -208,15 +198,15 @@ def AllPos : Tree K → Prop
 theorem half_pos {a : K} (h : 0 < a) : 0 < half a := by
   unfold half; positivity
 
-theorem allPos_of_WF (data : Nat → K × K) : ∀ (t : Tree K) (is : List Nat), WF data t is →
+theorem allPos_of_WF (data : Nat → K × K) : ∀ (t : Tree K) (ps : List (K × K)), WF data t ps →
     0 < t.cell.hw → AllPos t := by
   intro t
   induction t with
-  | leaf b cum com res => intro is _ h; exact h
+  | leaf b cum com res => intro ps _ h; exact h
   | node b cum com nw ne sw se ih1 ih2 ih3 ih4 =>
-    intro is hwf h
+    intro ps hwf h
     simp only [WF] at hwf
-    obtain ⟨r, dups, rest, -, -, -, -, -, -, e1, e2, e3, e4, w1, w2, w3, w4⟩ := hwf
+    obtain ⟨-, -, -, -, e1, e2, e3, e4, w1, w2, w3, w4⟩ := hwf
     simp only [Tree.cell] at h
     have hh := half_pos h
     exact ⟨h, ih1 _ w1 (by rw [e1]; exact hh), ih2 _ w2 (by rw [e2]; exact hh),
